@@ -480,7 +480,7 @@ class Model:
                 return _Bound(self.I, f, obj)
             if attr == "view":
                 return lambda cls=None: self.view(obj, cls)
-            if attr in ("shape", "ndim", "size"):
+            if attr in ("shape", "ndim", "size", "flags", "dtype"):
                 return getattr(obj, attr)
             if attr in ("transpose", "copy"):
                 return getattr(obj, attr)
